@@ -331,21 +331,82 @@ async def script(loop, ctx):
                 await w.cmd(f"UID STORE {','.join(map(str, keep))} +FLAGS.SILENT (\\Deleted)")
         await w.cmd("LOGOUT")
         await s.cmd("EXAMINE inbox")
-        rf = await s.cmd("FETCH 1:* (UID FLAGS RFC822.SIZE INTERNALDATE)") if truths else None
-        facts = []
-        if rf is not None:
-            for n, d_ in sorted(rf.fetches(), key=lambda t: t[0]):
-                if "UID" not in d_:
-                    continue
-                idt = dt.datetime.strptime(d_["INTERNALDATE"].strip(), "%d-%b-%Y %H:%M:%S %z")
-                facts.append({"seq": n, "uid": d_["UID"], "flags": set(d_["FLAGS"]), "size": d_["RFC822.SIZE"], "idate": idt.date(), "truth": truths[d_["UID"]]})
+        next_i = [nm]
+        from .hist_base import set_pack_limit
+
+        pack_low = (k % 3 == 1)
+        if pack_low:
+            set_pack_limit(3)  # the periodic check packs the folder (message files renumbered 1..N) whenever it has holes
+
+        async def refresh():
+            rf = await s.cmd("FETCH 1:* (UID FLAGS RFC822.SIZE INTERNALDATE)") if truths else None
+            out = []
+            if rf is not None:
+                for n, d_ in sorted(rf.fetches(), key=lambda t: t[0]):
+                    if "UID" not in d_:
+                        continue
+                    idt = dt.datetime.strptime(d_["INTERNALDATE"].strip(), "%d-%b-%Y %H:%M:%S %z")
+                    out.append({"seq": n, "uid": d_["UID"], "flags": set(d_["FLAGS"]), "size": d_["RFC822.SIZE"], "idate": idt.date(), "truth": truths[d_["UID"]]})
+            return out
+
+        async def change_mailbox():
+            """Between two rounds of programs the mailbox changes: the last message (and perhaps another) is expunged, new
+            messages arrive -- they get the message numbers just freed --, flags change, the folder may be packed.  What
+            SEARCH answers afterwards must be about the messages that are there now."""
+            w2 = rig.session("W")
+            await w2.cmd("SELECT inbox")
+            cur = await refresh()
+            if cur:
+                victims = {cur[-1]["uid"]}
+                if len(cur) > 2 and rnd.random() < 0.5:
+                    victims.add(rnd.choice(cur[:-1])["uid"])
+                _, deleted = await search(w2, "DELETED", uid=True)
+                keep = [u for u in (deleted or set()) if u not in victims]
+                if keep:
+                    await w2.cmd(f"UID STORE {','.join(map(str, keep))} -FLAGS.SILENT (\\Deleted)")
+                await w2.cmd(f"UID STORE {','.join(map(str, sorted(victims)))} +FLAGS.SILENT (\\Deleted)")
+                await w2.cmd("EXPUNGE")
+                if keep:
+                    await w2.cmd(f"UID STORE {','.join(map(str, keep))} +FLAGS.SILENT (\\Deleted)")
+                for u in victims:
+                    truths.pop(u, None)
+                cx["epoch_expunged"] += len(victims)
+            if pack_low:
+                await rig.advance(7)
+            for _ in range(rnd.randint(1, 3)):
+                i = next_i[0]
+                next_i[0] += 1
+                raw, t = make_mail(i, rnd)
+                fl = [f for f in ["\\Seen", "\\Answered", "\\Flagged", "\\Draft"] + KEYWORDS if rnd.random() < 0.35]
+                r_ = await w2.append("inbox", raw, flags=fl)
+                m_ = re.match(r"APPENDUID \d+ (\d+)", (r_.tagged.code or "") if r_.tagged else "")
+                if not r_.ok or not m_:
+                    raise RuntimeError("append failed: " + r_.brief())
+                truths[int(m_.group(1))] = t
+                cx["epoch_appended"] += 1
+            left = sorted(truths)
+            if left and rnd.random() < 0.7:
+                u = rnd.choice(left)
+                await w2.cmd(f"UID STORE {u} {rnd.choice(['+', '-'])}FLAGS.SILENT ({rnd.choice(['\\Flagged', '\\Seen', KEYWORDS[0]])})")
+            await w2.cmd("LOGOUT")
+            await s.cmd("NOOP")
+            cx["epochs"] += 1
+
+        facts = await refresh()
         uids = [f["uid"] for f in facts]
         ectx = {"uids": uids}
         nprog = 30 if ctx["tier"] == "quick" else 60
         allseq = {f["seq"] for f in facts}
+        epoch_at = {nprog // 3, (2 * nprog) // 3} if (nm and k % 2 == 0) else set()
         for pi in range(nprog):
+            if pi in epoch_at:
+                await change_mailbox()
+                facts = await refresh()
+                uids = [f["uid"] for f in facts]
+                ectx = {"uids": uids}
+                allseq = {f["seq"] for f in facts}
             depth = rnd.choice([0, 1, 2, 3, 4])
-            key = fix_dates(("and",) + tuple(gen_key(rnd, len(facts), uids, depth, nm) for _ in range(rnd.randint(1, 3))), rnd, facts)
+            key = fix_dates(("and",) + tuple(gen_key(rnd, len(facts), uids, depth, next_i[0]) for _ in range(rnd.randint(1, 3))), rnd, facts)
             text = " ".join(render(x, rnd) for x in key[1:])
             if rnd.random() < 0.1:
                 text = "CHARSET " + rnd.choice(["UTF-8", "US-ASCII"]) + " " + text
@@ -380,7 +441,7 @@ async def script(loop, ctx):
                     if g2 is None or g2 != allseq - got:
                         problems.append(("not-is-not-complement", f"{sub}: {sorted(got)} ; NOT: {sorted(g2) if g2 is not None else None} of {sorted(allseq)}"))
                 else:
-                    key2 = fix_dates(gen_key(rnd, len(facts), uids, 1, nm), rnd, facts)
+                    key2 = fix_dates(gen_key(rnd, len(facts), uids, 1, next_i[0]), rnd, facts)
                     t2 = render(key2, rnd)
                     keys_in(key2, keys_cov)
                     rb, gb = await search(s, t2)
@@ -414,6 +475,12 @@ async def script(loop, ctx):
             await rig.stop()
         except Exception:
             cx["stop_failed"] += 1
+        try:
+            from .hist_base import set_pack_limit as _spl
+
+            _spl(100)
+        except Exception:
+            pass
     for kk in keys_cov:
         cx["key:" + kk] += 1
     return cases
